@@ -55,7 +55,7 @@ def const_op(op, x, c):
 def _sym_op(op, x, y):
     space = context_statespace()
     solver = space.solver
-    for k in (8, 16, 24, 32, 56):
+    for k in (8, 12, 16, 20, 24, 32, 40, 48, 56):
         for lo, hi in ((x, y), (y, x)):
             cond = z3.And(lo >= 0, lo < (1 << k), hi % (1 << k) == 0)
             if solver.check(z3.Not(cond)) == z3.unsat:
